@@ -2,6 +2,7 @@ package harness
 
 import (
 	"fmt"
+	"os"
 	"strings"
 	"testing"
 
@@ -40,7 +41,7 @@ func c03Types() []c03Type {
 		out = append(out, c03Type{k, desc.Scalar(k), []c03State{{"zero", desc.V{}, true, true}, {"set", desc.V{U: 5}, false, false}}})
 	}
 	for _, k := range []string{"float32", "float64"} {
-		out = append(out, c03Type{k, desc.Scalar(k), []c03State{{"zero", desc.V{}, true, true}, {"set", desc.V{F: 1.5}, false, false}}})
+		out = append(out, c03Type{k, desc.Scalar(k), []c03State{{"zero", desc.V{}, true, true}, {"negative-zero", desc.V{NegZero: true}, true, true}, {"set", desc.V{F: 1.5}, false, false}}})
 	}
 	// named (defined) scalar types, some of which have a String method
 	out = append(out, c03Type{"named-string", desc.NamedScalar("string"), []c03State{{"zero", desc.V{}, true, true}, {"set", desc.Str("abc"), false, false}}})
@@ -227,6 +228,23 @@ func enumC03(t *testing.T) {
 
 func TestC03(t *testing.T) {
 	t.Run("enum", enumC03)
+	t.Run("nested-empty", func(t *testing.T) {
+		// empty optional sub-objects are skipped, empty mandatory ones are reported, and
+		// nothing inside an empty sub-object is ever demanded (reference walker as oracle)
+		rapid.Check(t, func(t *rapid.T) {
+			c := genC03Nested(t)
+			msg, res, skipped := checkC02(c)
+			if skipped != "" {
+				ev.Excluded(strings.SplitN(skipped, ":", 2)[0])
+				return
+			}
+			ev.Class("nested-empty-subobjects")
+			ev.Case("nested:"+c02Key(c), res.Objects >= 2, func() interface{} { return c })
+			if msg != "" {
+				ev.Fail(t, "C03", "nested", c, "%s", msg)
+			}
+		})
+	})
 	t.Run("random", func(t *testing.T) {
 		types := c03Types()
 		rapid.Check(t, func(t *rapid.T) {
@@ -247,6 +265,11 @@ func TestC03(t *testing.T) {
 			}
 			missing := car != "var" && car != "tag" && car != "rm" && st.zero && rapid.Bool().Draw(t, "missing")
 			c := c03Case(ty, st, rs, car, missing)
+			if car == "tag" && rapid.IntRange(0, 2).Draw(t, "decoy") == 0 {
+				// an earlier call on the same struct type whose per-call rule differs in required-ness
+				c.Decoy = rapid.SampledFrom([]string{"required", "required|decoy", "to=1~3", "ge=2|decoy", "phone"}).Draw(t, "decoyRule")
+				ev.Class("earlier-call-with-other-rule-on-same-type")
+			}
 			if car == "listmap" && !missing && rapid.Bool().Draw(t, "mixedList") {
 				c.ListMissing = rapid.SliceOfN(rapid.Bool(), 2, 4).Draw(t, "listMissing")
 				ev.Class("list-of-maps-with-mixed-presence")
@@ -275,7 +298,74 @@ func TestC03(t *testing.T) {
 	})
 }
 
+// genC03Nested: struct types whose container fields (by-value structs, arrays of
+// structs, pointers, slices, maps) are optional (exist) or mandatory (required)
+// and whose inner types demand their own fields; many sub-objects are empty.
+func genC03Nested(t *rapid.T) *StructCase {
+	mg := &msgGen{mode: 1}
+	g := &structGen{t: t, mg: mg, tag: "valid", maxDepth: rapid.IntRange(1, 3).Draw(t, "maxDepth"), maxField: rapid.IntRange(1, 4).Draw(t, "maxField"),
+		containerMarks: []string{"exist", "exist", "required|need", "exist|opt", "-"}, scalarKinds: []string{"string", "int", "uint8", "float64", "bool"}}
+	g.leafRules = func(kind string, v desc.V) string {
+		switch rapid.IntRange(0, 3).Draw(t, "leafRule") {
+		case 0:
+			return ""
+		case 1:
+			m, _ := measureOf(kind, v)
+			return genSizeRule(t, m, "leaf") + mg.next(t)
+		}
+		return "required" + mg.next(t)
+	}
+	ty, _ := g.genStruct(0)
+	walkTypes(&ty, func(st *desc.T) { addGroups(t, st, "valid") })
+	val := g.genValueFor(ty, 0)
+	// empty sub-objects are what this sub-check is about: zero out some of them
+	var zeroSome func(ft desc.T, v *desc.V)
+	zeroSome = func(ft desc.T, v *desc.V) {
+		switch ft.K {
+		case "struct":
+			if rapid.IntRange(0, 2).Draw(t, "zeroObj") == 0 {
+				*v = desc.V{}
+				return
+			}
+			for i := range ft.Fields {
+				if i < len(v.E) {
+					zeroSome(ft.Fields[i].T, &v.E[i])
+				}
+			}
+		case "array", "slice", "map", "ptr":
+			for i := range v.E {
+				zeroSome(*ft.Elem, &v.E[i])
+			}
+		}
+	}
+	for i := range ty.Fields {
+		if i < len(val.E) {
+			zeroSome(ty.Fields[i].T, &val.E[i])
+		}
+	}
+	c := &StructCase{Root: desc.Ptr(ty), Val: desc.V{E: []desc.V{val}}}
+	c.pickEntry(rapid.IntRange(0, 7).Draw(t, "entry"))
+	return c
+}
+
 func TestC03Replay(t *testing.T) {
+	// (nested cases are StructCase replays: they carry a "root")
+	var scalarFiles []string
+	for _, f := range ev.ReplayFiles() {
+		rp, err := ev.LoadReplay(f)
+		if err == nil && rp.Sub == "nested" {
+			var c StructCase
+			if err := jsonUnmarshal(rp.Case, &c); err != nil {
+				t.Fatalf("replay %s: %v", f, err)
+			}
+			if msg, _, _ := checkC02(&c); msg != "" {
+				ev.Fail(t, "C03", "nested", &c, "%s (replay %s)", msg, f)
+			}
+			continue
+		}
+		scalarFiles = append(scalarFiles, f)
+	}
+	os.Setenv("VERIF_REPLAY_FILES", strings.Join(scalarFiles, "\n"))
 	replayScalarCases(t, "C03", func(c *ScalarCase) string {
 		msg, _ := checkC03(c)
 		return msg
